@@ -67,6 +67,8 @@ type InvResult struct {
 	Events   []ExecEvent
 	Steps    int
 	SimMS    int64
+	Ops      int
+	EndSimMS int64
 }
 
 type wbuild struct {
@@ -86,6 +88,8 @@ type wbuild struct {
 	ranBin  []string
 	curOpts InvOpts
 	dirInWay map[string]bool
+	fs       *faultState
+	focus    string
 }
 
 var runCounter int
@@ -349,7 +353,7 @@ func (w *wbuild) handler(inv *simexec.Invocation) (int, error) {
 	}
 	if f[1] == "SIMCHECK" {
 		key := f[3]
-		ev := ExecEvent{Inv: invN, Label: s.Label(), Kind: "check", Start: w.s.Steps(), Machine: m.Name}
+		ev := ExecEvent{Inv: invN, Label: s.Label(), Kind: "check", Start: inv.StartStep, Machine: m.Name}
 		inv.Sleep(0)
 		w.mu.Lock()
 		val := u.Ext[key]
@@ -365,7 +369,7 @@ func (w *wbuild) handler(inv *simexec.Invocation) (int, error) {
 		return ev.Exit, nil
 	}
 	// ---- target command
-	ev := ExecEvent{Inv: invN, Label: s.Label(), Kind: "cmd", Start: w.s.Steps(), Machine: m.Name}
+	ev := ExecEvent{Inv: invN, Label: s.Label(), Kind: "cmd", Start: inv.StartStep, Machine: m.Name}
 	w.mu.Lock()
 	w.running++
 	if w.running > w.maxRun {
@@ -486,6 +490,7 @@ func (w *wbuild) invoke(m *Machine, req BuildReq, opts InvOpts, arm func(p *simr
 	n := w.inv
 	w.M = m
 	w.curOpts = opts
+	w.running = 0 // commands of a killed process may be left blocked (zombies)
 	first := len(w.events)
 	w.mu.Unlock()
 	logPath := filepath.Join(w.base, fmt.Sprintf("log-%s-%d.txt", m.Name, n))
@@ -511,7 +516,8 @@ func (w *wbuild) invoke(m *Machine, req BuildReq, opts InvOpts, arm func(p *simr
 		}
 	})
 	w.s.WaitProc(proc)
-	res := &InvResult{N: n, ExitCode: proc.ExitCode, Cause: proc.Cause, Steps: w.s.Steps() - startSteps, SimMS: (w.s.SimElapsed() - startSim).Milliseconds()}
+	res := &InvResult{N: n, ExitCode: proc.ExitCode, Cause: proc.Cause, Steps: w.s.Steps() - startSteps, SimMS: (w.s.SimElapsed() - startSim).Milliseconds(),
+		Ops: simos.PD(proc).Ops, EndSimMS: w.s.SimElapsed().Milliseconds()}
 	if b, err := os.ReadFile(logPath); err == nil {
 		res.Log = string(b)
 	}
